@@ -1,5 +1,6 @@
 import FsModel.Driver
 import FsModel.Grid
+import FsModel.MeshGrid
 
 /-! Grid calls of `fsmodel`. -/
 namespace Fs.Driver
@@ -8,7 +9,7 @@ open Fs.Wire Fs.Grid
 inductive GridSpec where
   | raster (g : Raster F) (status : Array Nat)
   | profile (n : Nat) (dx : F) (looped : Bool) (status : Array Nat)
-  | mesh (n : Nat)
+  | mesh (n : Nat) (status : Array Nat) (nb : Array (List (Nat × F))) (areas : Array F)
   | none
 
 def stTok (s : String) : Nat :=
@@ -50,17 +51,46 @@ def parseGrid (t : List String) : Except Err GridSpec :=
     match profileStatus n (stTok l) (stTok r) ov with
     | .error e => .error e
     | .ok st => .ok (.profile n (hexF dx) (stTok l == Fs.Gen.nsLooped && stTok r == Fs.Gen.nsLooped) st)
+  | "grid" :: "mesh" :: np :: nt :: rest =>
+    let np := natOf np
+    let nt := natOf nt
+    let ptsA : Array (F × F) := Id.run do
+      let mut a := #[]
+      let toksA := (rest.take (2 * np)).toArray
+      for i in [0:np] do
+        a := a.push (hexF (toksA.getD (2 * i) "0"), hexF (toksA.getD (2 * i + 1) "0"))
+      return a
+    let pts : Nat → F × F := fun i => ptsA.getD i (0.0, 0.0)
+    let trisA := ((rest.drop (2 * np)).take (3 * nt)).toArray
+    let tris : List (Nat × Nat × Nat) := (List.range nt).map (fun t =>
+      (natOf (trisA.getD (3 * t) "0"), natOf (trisA.getD (3 * t + 1) "0"), natOf (trisA.getD (3 * t + 2) "0")))
+    let m := Fs.Mesh.edgeMap tris
+    let SO := ScalarOps.float
+    let stRes : Except Fs.MeshGrid.Err (Array Nat) :=
+      match rest.drop (2 * np + 3 * nt) with
+      | "map" :: _ :: tl => Fs.MeshGrid.statusMap np m (parseOvP tl)
+      | "arr" :: _ :: tl => Fs.MeshGrid.statusArr np (tl.map stTok)
+      | _ => .ok (Fs.MeshGrid.statusDefault np m)
+    match stRes with
+    | .error .invalidArgument => .error .invalidArgument
+    | .error .outOfRange => .error .outOfRange
+    | .ok st =>
+      let nb : Array (List (Nat × F)) := Array.ofFn (n := np) (fun i =>
+        (Fs.MeshGrid.sortNat (Fs.MeshGrid.nbrs m i.val)).map (fun j => (j, Fs.MeshGrid.dist SO pts i.val j)))
+      let ar := Fs.MeshGrid.areas SO 0.0 (Float.ofBits 0x0010000000000000) (fun x => x == 0.0) np pts tris m
+      .ok (.mesh np st nb ar)
   | _ => .ok .none
 
 def GridSpec.size : GridSpec → Nat
-  | .raster g _ => g.rows * g.cols | .profile n _ _ _ => n | .mesh n => n | .none => 0
+  | .raster g _ => g.rows * g.cols | .profile n _ _ _ => n | .mesh n _ _ _ => n | .none => 0
 
 def GridSpec.status : GridSpec → Array Nat
-  | .raster _ s => s | .profile _ _ _ s => s | _ => #[]
+  | .raster _ s => s | .profile _ _ _ s => s | .mesh _ s _ _ => s | _ => #[]
 
 def GridSpec.nbIdx : GridSpec → Nat → List Nat
   | .raster g _, i => rasterNbIdx g i
   | .profile n _ l _, i => profileNbIdx n l i
+  | .mesh _ _ nb _, i => (nb.getD i []).map (·.1)
   | _, _ => []
 
 def GridSpec.nbDist : GridSpec → Nat → List F
@@ -72,15 +102,23 @@ def GridSpec.area : GridSpec → F
   | .raster g _ => g.dy * g.dx | .profile _ dx _ _ => dx | _ => 0.0
 
 def GridSpec.nmax : GridSpec → Nat
-  | .raster g _ => Fs.Grid.nmax g.conn | .profile .. => 2 | _ => 0
+  | .raster g _ => Fs.Grid.nmax g.conn | .profile .. => 2 | .mesh .. => 20 | _ => 0
 
 def gridCommon (g : GridSpec) : List String :=
   let n := g.size
+  let areas := match g with
+    | .mesh _ _ _ a => a.toList
+    | _ => List.replicate n g.area
   [ line "size" (toString n), line "nmax" (toString g.nmax),
     line "status" (joinNats g.status.toList),
-    line "area" (joinF (List.replicate n g.area)), line "area_views_agree" "1" ]
+    line "area" (joinF areas), line "area_views_agree" "1" ]
 
 def gridQuery (g : GridSpec) (kind : String) (i : Nat) : List String :=
+  match g, kind with
+  | .mesh _ st nb _, "m" =>
+    [line ("q m " ++ toString i) (" ".intercalate ((nb.getD i []).map (fun p =>
+        toString p.1 ++ " " ++ fHex p.2 ++ " " ++ toString (st.getD p.1 0))))]
+  | _, _ =>
   let idx := g.nbIdx i
   let dist := g.nbDist i
   let pre := "q " ++ kind ++ " " ++ toString i
